@@ -94,3 +94,43 @@ def o19_4(tier):
             ctx.ensure(ctx.Or(ctx.And(a > 0, s == 1), ctx.And(a < 0, s == -1), ctx.And(ctx.zero(a), s == 0)), "sign")
         return h
     return [(f"n={n}", mk(n)) for n in (3, 4, 6)]
+
+
+@obligation("O19.6", ["C19"], [T + ":remove_infinite_regions", T + ":distance_matrix"],
+            "remove_infinite_regions drops exactly the bounded regions whose diameter (largest corner-to-corner distance over ALL corners) exceeds the "
+            "cut-off; unbounded (-1) and empty regions are left for the caller to skip", tier="Pn")
+def o19_6(tier):
+    def mk(n):
+        def h(ctx):
+            te = ctx.module(T)
+            pts = [(ctx.real(f"x{i}"), ctx.real(f"y{i}")) for i in range(n)]
+            for a in range(n):
+                for b in range(a + 1, n):
+                    ctx.assume(ctx.Or(ctx.Not(ctx.close(pts[a][0], pts[b][0])), ctx.Not(ctx.close(pts[a][1], pts[b][1]))), "pre: corners pairwise different")
+            far = (ctx.real("fx"), ctx.real("fy"))
+            md = ctx.real("max_distance")
+            ctx.assume(md > 0, "pre")
+
+            class Tess:
+                pass
+            if ctx.mode == "sym":
+                from fvc import npmodel
+
+                class TS:
+                    def fvc_getattr(self, it, name):
+                        return npmodel.asarray([list(p) for p in pts] + [list(far)])
+                tess = TS()
+            else:
+                tess = Tess()
+                tess.vertices = ctx.module("numpy").array([list(p) for p in pts] + [list(far)])
+            region = list(range(n))
+            regions = [[], [0, -1, 1], list(region)]
+            out = ctx.list_of(ctx.call(ctx.get(te, "remove_infinite_regions"), tess, regions, max_distance=md))
+            out = [ctx.list_of(r) for r in out]
+            d2 = [(pts[a][0] - pts[b][0]) * (pts[a][0] - pts[b][0]) + (pts[a][1] - pts[b][1]) * (pts[a][1] - pts[b][1]) for a in range(n) for b in range(a + 1, n)]
+            too_big = ctx.Or(*[d > md * md for d in d2])
+            kept = region in out
+            ctx.ensure(ctx.Not(too_big) if kept else too_big, "bounded region kept iff no two of its corners are farther apart than the cut-off")
+            ctx.ensure([] in out and [0, -1, 1] in out, "empty and unbounded regions are not touched here")
+        return h
+    return [(f"corners={n}", mk(n)) for n in ((3,) if tier == "quick" else (3, 4))]
